@@ -811,6 +811,14 @@ impl Store {
                     Err(e) => format!("err {}", e),
                 })
             }
+            ["rmfile", name] => {
+                // take a planted file away again
+                let f = self.dir.join(long_name(name)?);
+                Some(match fs::remove_file(&f) {
+                    Ok(_) => "ok".into(),
+                    Err(e) => format!("err {}", e),
+                })
+            }
             ["waitfor", what, ms] => {
                 // wait for background activity without any client action: a hint file appearing
                 // (= a merge ran) or an fsync in the trace; answers with the elapsed milliseconds
